@@ -1,2 +1,8 @@
 import TlxVerif.Props.C02
-#print axioms TlxVerif.C02.ledger_add_zero
+#print axioms TlxVerif.C02.inv_init
+#print axioms TlxVerif.C02.insert_defined
+#print axioms TlxVerif.C02.inv_insert
+#print axioms TlxVerif.C02.insert_ledger
+#print axioms TlxVerif.C02.stats_eq_recount
+#print axioms TlxVerif.C02.clear_ledger
+#print axioms TlxVerif.C02.lifetime_balance
